@@ -139,7 +139,8 @@ def treeCase (inp impl : String) : CaseOut :=
       | some i =>
         -- after a duplicate SpawnChild the difference is also C10's ("a duplicate spawn changes nothing")
         -- (and C12's when it is the duplicate-id event that is missing or doubled)
-        let lbl := if (ops.getD i "").startsWith "sd" then "C08+C10+C12"
+        let lbl := if ((view.getD i "").splitOn "bystander").length > 1 then "C06+C08+C10"
+                   else if (ops.getD i "").startsWith "sd" then "C08+C10+C12"
                    else if (ops.take (i + 1)).any (·.startsWith "sd") then "C08+C10" else "C08"
         if fails.isEmpty then [s!"{lbl} op#{i} {ops.getD i "?"}: implementation [{view.getD i "?"}] expected [{out.getD i "?"}]"] else []
       | none => []
